@@ -57,6 +57,10 @@ func RunParse(b *Built, args []string) *ParseObs {
 	o.Log = b.Log.E
 	for c := b.P.Command.Active; c != nil; c = c.Active {
 		o.Active = append(o.Active, c.Name)
+		if len(o.Active) > 64 {
+			o.Active = append(o.Active, "<cycle in the Active chain>")
+			break
+		}
 	}
 	return o
 }
